@@ -140,9 +140,14 @@ fn one_run(bi: usize, ops: &[Value], rounds: u8, tr: &mut Trace) -> RunOut {
     let mut waiting_timeout: Option<(usize, usize, usize)> = None; // (node, tx count at start, advances)
     let mut winding_down = 0usize;
     // "Auto" mode: deliver every datagram in order of appearance, except the ordinals to drop / duplicate
-    let mut auto: Option<(Vec<u64>, Vec<u64>)> = None;
+    struct Auto {
+        drop: Vec<u64>,
+        dup: Vec<u64>,
+        delay: Vec<(u64, u64)>,
+    }
+    let mut auto: Option<Auto> = None;
     let mut ordinal = 0u64;
-    let mut pending_dup: Option<crate::sim::Dgram> = None;
+    let mut queue: Vec<(u64, crate::sim::Dgram)> = Vec::new();
     let out = RefCell::new(Vec::<Value>::new());
 
     let end = drive(all.as_mut(), &net, &Limits { max_virtual_ms: 120_000, ..Default::default() }, |net| {
@@ -228,7 +233,15 @@ fn one_run(bi: usize, ops: &[Value], rounds: u8, tr: &mut Trace) -> RunOut {
                 }
                 "Auto" => {
                     let l = |k: &str| op[k].as_array().map(|a| a.iter().map(|x| x.as_u64().unwrap()).collect()).unwrap_or_default();
-                    auto = Some((l("drop"), l("dup")));
+                    let pairs = |k: &str| -> Vec<(u64, u64)> { op[k].as_array().map(|a| a.iter().map(|x| (x[0].as_u64().unwrap(), x[1].as_u64().unwrap())).collect()).unwrap_or_default() };
+                    auto = Some(Auto { drop: l("drop"), dup: l("dup"), delay: pairs("delay") });
+                    // slow network sends: [node, ordinal of the send call, ms]
+                    if let Some(a) = op["slow"].as_array() {
+                        let mut n = net.borrow_mut();
+                        for x in a {
+                            n.slow.push((x[0].as_u64().unwrap() as usize, x[1].as_u64().unwrap() as usize, x[2].as_u64().unwrap()));
+                        }
+                    }
                     matched += 1;
                 }
                 "Timeout" => {
@@ -241,26 +254,39 @@ fn one_run(bi: usize, ops: &[Value], rounds: u8, tr: &mut Trace) -> RunOut {
                 o => panic!("unknown op {o}"),
             }
         }
-        // 5. wind down / auto mode: deliver whatever is still on the wire in order, then let all timers run out
-        if let Some(d) = pending_dup.take() {
+        // 5. wind down / auto mode: every datagram is delivered in order of appearance after its delay (0 unless the
+        //    schedule says otherwise), except the ordinals to drop; duplicates are delivered twice
+        {
+            let mut n = net.borrow_mut();
+            while let Some(d) = n.wire.pop_front() {
+                ordinal += 1;
+                let (mut dl, mut dup) = (0u64, false);
+                if let Some(a) = &auto {
+                    if a.drop.contains(&ordinal) {
+                        continue;
+                    }
+                    dup = a.dup.contains(&ordinal);
+                    dl = a.delay.iter().find(|x| x.0 == ordinal).map(|x| x.1).unwrap_or(0);
+                }
+                let at = sim::now_ms() + dl;
+                if dup {
+                    queue.push((at, d.clone()));
+                }
+                queue.push((at, d));
+            }
+        }
+        let now = sim::now_ms();
+        if let Some(pos) = queue.iter().position(|q| q.0 <= now) {
+            let (_, d) = queue.remove(pos);
             let c = u32::from_le_bytes([d.data[4], d.data[5], d.data[6], d.data[7]]);
             tr.ev(json!({"ev": "Dlv", "from": nm(d.src), "ctr": c, "t": sim::now_ms()}));
             return Step::Inject { src: d.src, dst: d.dst, data: d.data };
         }
-        let first = net.borrow().wire.front().cloned();
-        if let Some(d) = first {
-            if let Some((drops, dups)) = &auto {
-                ordinal += 1;
-                if drops.contains(&ordinal) {
-                    return Step::Drop(0);
-                }
-                if dups.contains(&ordinal) {
-                    pending_dup = Some(d.clone());
-                }
-            }
-            let c = u32::from_le_bytes([d.data[4], d.data[5], d.data[6], d.data[7]]);
-            tr.ev(json!({"ev": "Dlv", "from": nm(d.src), "ctr": c, "t": sim::now_ms()}));
-            return Step::Deliver(0);
+        let next_rel = queue.iter().map(|q| q.0).min();
+        match (next_rel, sim::next_timer_ms()) {
+            (Some(r), Some(t)) if t < r => return Step::NextTimer,
+            (Some(r), _) => return Step::AdvanceMs(r - now),
+            _ => {}
         }
         winding_down += 1;
         if winding_down > 400 {
